@@ -15,7 +15,7 @@ RULE = ('parsing: every unit {none,b,k,kb,kib,m,mb,mib,g,gb,gib,t,tb,tib} x ever
         'subset of {c,d,s} x unit {none,b,k,kb,kib,..,tb,tib} x a logarithmic size grid with +-1 neighbours, checked '
         'against the documented example table, the unit/base/precision grammar, half-unit accuracy, monotonicity and '
         'round trip; fsize under several default_file_size_format settings, also for zip members; every ordered pair of 18 specifiers in one query')
-ASSUMPTIONS = ['literals whose byte count is not an integer are not generated (the statement defines no rounding); decimal notation is used with k..t units only',
+ASSUMPTIONS = ['the unit x number grid uses whole byte counts; a separate list of literals with fractional, signed, over-long and saturating values is compared exactly (fraction digits beyond the 18th are zeros)',
                'a fixed unit without explicit precision is checked for accuracy/monotonicity only (default precision undocumented)',
                'integral quotients may be printed without decimals', 'the displayed quotient is a double: an error of one rounding (2^-52 relative) on top of the displayed precision is accepted']
 BUDGET = {'quick': 50, 'thorough': 900}
@@ -30,6 +30,32 @@ OPS = [('=', lambda a, b: a == b), ('<', lambda a, b: a < b), ('>', lambda a, b:
 GRID = sorted({x for k in range(0, 51, 10) for x in (2 ** k - 1, 2 ** k, 2 ** k + 1)} | {x for k in (3, 6, 9, 12, 15) for x in (10 ** k - 1, 10 ** k, 10 ** k + 1)} | {0, 1, 2, 999, 1000, 1001, 1023, 1024, 1025, 1500, 1536, 2047, 2048, 10 ** 6 - 1, 10 ** 6, 10 ** 6 + 1,
                2 ** 20 - 1, 2 ** 20, 2 ** 20 + 1, 1678123, 123456789, 10 ** 9 - 1, 10 ** 9, 10 ** 9 + 1, 2 ** 30 - 1, 2 ** 30,
                2 ** 30 + 1, 5 * 2 ** 30 + 7, 10 ** 12 - 1, 10 ** 12, 10 ** 12 + 1, 2 ** 40 - 1, 2 ** 40, 2 ** 40 + 1, 3 * 10 ** 12 + 5})
+
+# literals whose byte count is no whole number, carries a sign, is written with more digits than a double holds, or
+# exceeds every size: (literal, exact value as text of a fraction or 'huge'); the comparison with a size is still exact
+XLITS = [('3.0b', '3'), ('1.5b', '3/2'), ('0.75B', '3/4'), ('.5b', '1/2'), ('2.b', '2'),
+         ('-1k', '-1024'), ('-0.5kb', '-500'), ('-1KiB', '-1024'), ('-3b', '-3'), ('-3', '-3'), ('-0.5', '-1/2'), ('+1k', '1024'), ('+3', '3'),
+         ('0.3k', '1536/5'), ('1.4995k', None), ('0.0005k', None), ('0.3kb', '300'), ('0.0015kb', '3/2'), ('2.9995kib', None),
+         ('1.0000000000000000k', '1024'), ('1.5000000000000000k', '1536'), ('000000000000000000001k', '1024'),
+         ('0.3000000000000000000000k', '1536/5'), ('3.000000000000000000b', '3'), ('00000000000000000000003', '3'),
+         ('15.000000000000001k', None), ('14.999999999999999k', None), ('2.9999999999999999k', None), ('3.0000000000000001k', None),
+         ('1000000000000.000000000000000t', 'huge'), ('1237940039285.380274899124224t', 'huge'), ('99999999999999999999999999k', 'huge'),
+         ('99999999999999999999.999999999999999tib', 'huge'), ('340282366920938463463374607431768211456b', 'huge'), ('18446744073709551616', 'huge'),
+         ('18446744073709551615k', 'huge')]
+# a literal as operand of arithmetic keeps its fraction of a byte: (expression, exact value)
+XEXPRS = [('0.3k * 10', '3072'), ('0.1k + 2.9k', '3072'), ('0.3 * 1k', '1536/5'), ('1.5b * 2', '3'), ('3.5k - 0.5k', '3072'), ('0.3k * 5', '1536'),
+          ('1.5k / 1', '1536'), ('0.75b + 0.25b', '1')]
+XSIZES = [0, 1, 2, 3, 4, 299, 300, 301, 306, 307, 308, 1023, 1024, 1025, 1535, 1536, 1537, 3070, 3071, 3072, 3073, 15359, 15360, 15361]
+
+
+def xvalue(lit, val):
+    if val == 'huge':
+        return Fraction(10) ** 60
+    if val is not None:
+        return Fraction(val)
+    m = re.fullmatch(r'([+-]?[\d.]+)([a-zA-Z]*)', lit)
+    return Fraction(m.group(1)) * mt.UNITS[m.group(2).lower()]
+
 
 DOC_TABLE = [(None, '1.60MiB'), (' ', '1.60 MiB'), ('%.0', '2MiB'), ('%.1', '1.6MiB'), ('%.2', '1.60MiB'), ('%.2 ', '1.60 MiB'),
              ('%.2 d', '1.68 MB'), ('%.2 c', '1.60 MB'), ('%.2 k', '1638.79 KiB'), ('%.2 ck', '1638.79 KB'),
@@ -85,6 +111,7 @@ def groups(tier, seed):
         pass
     for i in range(0, len(lits), 40):
         yield {'kind': 'parse', 'lits': lits[i:i + 40], 'tier': tier}
+    yield {'kind': 'parse-x', 'lits': [list(x) for x in XLITS], 'exprs': [list(x) for x in XEXPRS]}
     sp = list(specs(tier))
     for i in range(0, len(sp), 40):
         yield {'kind': 'format', 'specs': sp[i:i + 40]}
@@ -101,6 +128,9 @@ def single(case):
     k = case['kind']
     if k == 'parse':
         return {'kind': 'parse', 'lits': [[case['lit'], case['bytes']]], 'op': case['op'], 'tier': case.get('tier', 'quick')}
+    if k == 'parse-x':
+        return {'kind': 'parse-x', 'lits': [[case['lit'], case['value']]] if not case.get('expr') else [], 'exprs': [[case['lit'], case['value']]] if case.get('expr') else [],
+                'op': case['op'], 'mirror': case['mirror']}
     if k == 'format':
         return {'kind': 'format', 'specs': [case['spec']]}
     if k == 'specpair':
@@ -189,6 +219,39 @@ def eval_group(env, group, tier):
                     else:
                         r.update(status='ok', sig=(nbytes, opname))
                     outs.append(r)
+        finally:
+            env.rmtree(root)
+    elif kind == 'parse-x':
+        root = env.newdir('c14x')
+        core.materialise(root, {'s%d' % v: F(v, sparse=True) for v in XSIZES})
+        mirror_of = {'=': '=', '!=': '!=', '<': '>', '>': '<', '<=': '>=', '>=': '<='}
+        try:
+            for is_expr, items in ((False, group['lits']), (True, group['exprs'])):
+                for lit, val in items:
+                    x = xvalue(lit, val)
+                    for opname, opf in OPS:
+                        if group.get('op') and opname != group['op']:
+                            continue
+                        for mirror in (False, True):
+                            if 'mirror' in group and mirror != group['mirror']:
+                                continue
+                            if mirror and lit[0] in '+.' :
+                                continue        # a query cannot start its condition with these spellings
+                            cond = '%s %s size' % (lit, mirror_of[opname]) if mirror else 'size %s %s' % (opname, lit)
+                            q = 'name from . where %s into list' % cond
+                            o = env.run([q], cwd=root)
+                            exp = sorted('s%d' % v for v in XSIZES if opf(v, x))
+                            case = {'kind': 'parse-x', 'lit': lit, 'value': val, 'op': opname, 'mirror': mirror, 'expr': is_expr, 'query': q}
+                            r = {'case': case, 'nt': True, 'layer': 'literal-in-arithmetic' if is_expr else 'inexact-literal', 'trans': len(XSIZES)}
+                            rows = o.rows()
+                            if o.timeout or o.rc != 0 or o.err:
+                                r.update(status='viol', cls='parse-x-status', detail=dict(o.brief(), query=q), sig=('err',))
+                            elif sorted(rows) != exp:
+                                r.update(status='viol', cls='parse-x-rows', sig=('rows', lit),
+                                         detail={'query': q, 'value': str(x), 'got': sorted(rows)[:8], 'expected': exp[:8], 'n_got': len(rows), 'n_expected': len(exp)})
+                            else:
+                                r.update(status='ok', sig=(lit, opname, mirror))
+                            outs.append(r)
         finally:
             env.rmtree(root)
     elif kind == 'format':
